@@ -16,6 +16,12 @@
 #include <vector>
 #include "json.hpp"
 
+// Every call into the library that could loop runs under a watchdog: SIGALRM is reported as a watchdog fault.
+namespace grv { struct GrvWatch { GrvWatch(unsigned s = 20) { alarm(s); } ~GrvWatch() { alarm(0); } }; }
+#define GRV_CAT2(a, b) a##b
+#define GRV_CAT(a, b) GRV_CAT2(a, b)
+#define GRV_WATCHDOG grv::GrvWatch GRV_CAT(grv_watch_guard_, __COUNTER__)
+
 namespace grv {
 
 // ------------------------------------------------------------------------------------------
